@@ -143,6 +143,11 @@ Gather == /\ pc = "running" /\ queue = <<>> /\ \A w \in 1..Workers : busy[w] = <
 Next == AddColumn \/ StartBatches \/ Enumerate \/ Sample \/ Shuffle \/ ConstantStep \/ Submit
         \/ (\E w \in 1..Workers : Take(w) \/ Finish(w)) \/ Gather
 Spec == Init /\ [][Next]_vars
+\* ---- liveness of the pool sub-machine: under weak fairness of the workers and of the gathering loop every submitted chunk is
+\* taken and finished, the results are gathered and all batches complete (the 4 s polling loop of the code terminates)
+FairSpec == Spec /\ WF_vars(Next) /\ \A w \in 1..Workers : WF_vars(Take(w)) /\ WF_vars(Finish(w))
+AllBatchesComplete == <>(pc = "done")
+SubmittedIsGathered == [](pc = "running" => <>(pc # "running"))
 
 AfterBatch == batch > 0 /\ pc \in {"enumerate", "done"}
 TripSet == RangeOf(triplets)
